@@ -285,7 +285,69 @@ def history_model(history):
     return d
 
 
-def d2_compare(data, source, max_points, counters, history=None):
+def centre_line(spine, d):
+    """the judge's own model of a path element's centre line: the spine moved by the constant offset d to
+    the LEFT of the direction of travel; consecutive offset segments meet at their intersection (miter
+    point P + d*(n0+n1)/(1+n0.n1)).  Exact rational arithmetic; spine segments must be axis-parallel."""
+    pts = [(fr(x), fr(y)) for x, y in spine]
+    normals = []
+    for (x0, y0), (x1, y1) in zip(pts, pts[1:]):
+        dx, dy = x1 - x0, y1 - y0
+        assert (dx == 0) != (dy == 0), 'axis-parallel segments only'
+        ux, uy = (1 if dx > 0 else -1 if dx < 0 else 0), (1 if dy > 0 else -1 if dy < 0 else 0)
+        normals.append((-uy, ux))
+    d = fr(d)
+    out = [(pts[0][0] + d * normals[0][0], pts[0][1] + d * normals[0][1])]
+    for k in range(1, len(pts) - 1):
+        n0, n1 = normals[k - 1], normals[k]
+        den = 1 + n0[0] * n1[0] + n0[1] * n1[1]
+        out.append((pts[k][0] + d * (n0[0] + n1[0]) / den, pts[k][1] + d * (n0[1] + n1[1]) / den))
+    out.append((pts[-1][0] + d * normals[-1][0], pts[-1][1] + d * normals[-1][1]))
+    return out
+
+
+def sampled_polyline_matches(xy, model, corner_tol=1.0, seg_tol=0.71):
+    """xy (integer grid) is a sampling of the polyline `model` (exact, grid units): it starts at model[0], ends
+    at model[-1], visits every corner in order (each within corner_tol per coordinate) and every other vertex
+    lies within seg_tol of the current segment, never moving backwards along it."""
+    def near(p, q):
+        return abs(p[0] - q[0]) <= corner_tol and abs(p[1] - q[1]) <= corner_tol
+    if len(xy) < 2 or not near(xy[0], model[0]) or not near(xy[-1], model[-1]):
+        return False
+    j, last_t = 0, Fraction(0)
+    for p in xy[1:]:
+        if j + 1 < len(model) and near(p, model[j + 1]):
+            j += 1
+            last_t = Fraction(0)
+            continue
+        if j + 1 >= len(model):
+            if not near(p, model[-1]):
+                return False
+            continue
+        a, b = model[j], model[j + 1]
+        vx, vy = b[0] - a[0], b[1] - a[1]
+        L2 = vx * vx + vy * vy
+        t = ((p[0] - a[0]) * vx + (p[1] - a[1]) * vy) / L2
+        cross = (p[0] - a[0]) * vy - (p[1] - a[1]) * vx
+        if cross * cross > Fraction(seg_tol) ** 2 * L2 or t < last_t - Fraction(1, 10 ** 6) or t > 1:
+            return False
+        last_t = t
+    return j == len(model) - 1
+
+
+def multipath_expect(spec, offsets, S):
+    """expected PATH records of a multi-element simple path: one per element per repetition offset"""
+    exp = []
+    for el in spec['elements']:
+        line = centre_line(spec['spine'], el['offset'])
+        for o in offsets:
+            exp.append({'tag': tuple(el['tag']), 'pathtype': PATHTYPE_OF_END[el['end']], 'wexact': fr(el['width']) * S,
+                        'ext': (fr(el['ext'][0]) * S, fr(el['ext'][1]) * S),
+                        'line': [((x + fr(o[0])) * S, (y + fr(o[1])) * S) for x, y in line], 'offset': o, 'el': el})
+    return exp
+
+
+def d2_compare(data, source, max_points, counters, history=None, pathspec=None):
     """-> mismatches.  counters: dict incremented with out-of-scope / informational counts.
     history: for the prophist kind, the sequence of property calls that built the element in cell TOP*; the
     expected PROPATTR/PROPVALUE pairs then come from history_model(), not from the dump."""
@@ -346,8 +408,33 @@ def d2_compare(data, source, max_points, counters, history=None):
                         p['tag'], o, props, float(exact[0][0]), float(exact[0][1]), [(e['layer'], e['datatype'], e['xy'][:2], e['props']) for e in pool['boundary'][:3]])))
                 elif n + 1 > 8190 and len(hit['syn']['xy_split']) < 2:
                     pass
+        # multi-element simple paths (FlexPath / RobustPath): judged against the check's own centre-line model
+        spec_here = pathspec if (pathspec and sc['name'].startswith('TOP')) else None
+        if spec_here:
+            src_path = (sc['flexpaths'] + sc['robustpaths'])[0]
+            for x in multipath_expect(spec_here, src_path['repetition']['expanded'], S):
+                def mpred(e, x=x):
+                    if (e['layer'], e['datatype']) != x['tag'] or e['pathtype'] != x['pathtype']:
+                        return False
+                    if not rounds_to(abs(e['width']), x['wexact']) or (e['width'] != 0 and (e['width'] > 0) != spec_here['scale_width']):
+                        return False
+                    if x['pathtype'] == 4:
+                        if not rounds_to(e['bgnextn'], x['ext'][0]) or not rounds_to(e['endextn'], x['ext'][1]):
+                            return False
+                    elif e['bgnextn'] or e['endextn']:
+                        return False
+                    if e['props']:
+                        return False
+                    if spec_here['type'] == 'flex':   # point for point
+                        return len(e['xy']) == len(x['line']) and all(pt_rounds(a, b) for a, b in zip(e['xy'], x['line']))
+                    return sampled_polyline_matches(e['xy'], x['line'])
+                if take_match(pool['path'], mpred) is None:
+                    out.append(('multipath.missing', 'path', 'no PATH for %s element tag %r offset %r width %r end %s at repetition offset %r: model centre line (grid units) %r; PATH records of that tag: %r' % (
+                        spec_here['type'], x['tag'], x['el']['offset'], x['el']['width'], x['el']['end'], x['offset'], [(float(a), float(b)) for a, b in x['line']],
+                        [{k: e[k] for k in ('pathtype', 'width', 'bgnextn', 'endextn', 'xy')} for e in pool['path'] if (e['layer'], e['datatype']) == x['tag']][:2])))
+            counters['multipath_records_expected'] = counters.get('multipath_records_expected', 0) + len(spec_here['elements']) * len(src_path['repetition']['expanded'])
         # paths
-        for f in sc['flexpaths']:
+        for f in ([] if spec_here else sc['flexpaths']):
             props = src_props(f['properties'], sc['name'])
             if not f['simple_path']:
                 counters['out_of_scope_nonsimple_path'] = counters.get('out_of_scope_nonsimple_path', 0) + 1
@@ -379,7 +466,7 @@ def d2_compare(data, source, max_points, counters, history=None):
                         out.append(('path.missing', 'path', 'no PATH for element tag %r end %s half-width %r scale_width %r ext %r offset %r; candidates %r' % (
                             el['tag'], el['end'], el['half_width_and_offset'][0][0], f['scale_width'], el['end_extensions'], o,
                             [{k: e[k] for k in ('layer', 'datatype', 'pathtype', 'width', 'bgnextn', 'endextn', 'xy', 'props')} for e in pool['path'][:2]])))
-        if sc['robustpaths']:
+        if sc['robustpaths'] and not spec_here:
             counters['out_of_scope_robustpath'] = counters.get('out_of_scope_robustpath', 0) + 1
         # labels
         for l in sc['labels']:
